@@ -1,7 +1,7 @@
 """C16 - The metadata store serves exactly what valid, unexpired metadata declares."""
 import ast
 
-from ..match import facts, Q
+from ..match import facts, Q, result_reaches
 from ..srcmodel import attr_chain, call_name, unparse, norm_text, walk_no_nested
 from ..cfg import cfg_of, raised_class
 from ..dataflow import Origins
@@ -48,22 +48,29 @@ def m1_accessor_table_agreement(run, data):
     ms = m.cls("mdstore.MetadataStore")
     n = 0
     for name, fi in sorted(ms.methods.items()):
+        fcfg = None
         for c in calls_named(fi.node, "service", "ext_service"):
             if attr_chain(c.func) not in ("self.service", "self.ext_service"):
                 continue
-            if len(c.args) < 3:
+            # (entity_id, typ, service, binding) by position or keyword
+            a_desc = arg_of(c, 1, "typ")
+            a_srv = arg_of(c, 2, "service")
+            if a_desc is None or a_srv is None:
                 continue
-            a_desc, a_srv = c.args[1], c.args[2]
             if not isinstance(a_srv, ast.Constant):
                 continue
             if call_name(c) == "ext_service":
                 continue
             n += 1
             srv = a_srv.value
-            key = "%s::service(%s, %r)" % (fi.qual, unparse(a_desc), srv)
+            if fcfg is None:
+                fcfg = cfg_of(fi, m)
+            cn = [nd for nd, c2 in fcfg.call_nodes(call_name(c)) if c2 is c]
+            dtext = fcfg.itext(a_desc, cn[0].id) if cn else unparse(a_desc)
+            key = "%s::service(%s, %r)" % (fi.qual, dtext, srv)
             if isinstance(a_desc, ast.Constant):
                 cands = [a_desc.value]
-            elif unparse(a_desc) == "'%s_descriptor' % typ":
+            elif dtext == "'%s_descriptor' % typ":
                 cands = None
             else:
                 run.violated("M1", key, "descriptor argument has an unknown "
@@ -335,10 +342,11 @@ def m5_verify_before_serve(run):
     ver = [nd for nd, c in cfg.call_nodes("verify_signature")]
     run.require(parse and ver, "parse_and_check_signature: anchors vanished")
     # falsy verdict -> falsy result
-    wit = cfg.flag_search(cfg.entry, {}, lambda n, vd: cfg.nodes[n].kind ==
-                          "return" and not is_falsy_const(cfg.nodes[n].ast.value),
-                          assume={"self.cert": "T", "not self.signed()": "F",
-                                  unparse(ver[0].ast): "F"})
+    vcall = [c for nd, c in cfg.call_nodes("verify_signature")][0]
+    truthy = [r.id for r in cfg.by_kind("return")
+              if not is_falsy_const(r.ast.value)]
+    wit = result_reaches(cfg, ver[0].id, vcall, truthy, "F",
+                         assume={"self.cert": "T", "self.signed()": "T"})
     run.check(wit is None, "M5", fi.qual + "::invalid=>False",
               "an invalid signature yields a falsy result",
               "a truthy result is reachable although the signature did not "
@@ -373,6 +381,8 @@ def m5_verify_before_serve(run):
             f = m.enclosing_function(mi, c)
             if f is None or not f.module.endswith("mdstore"):
                 continue
+            if f.qual in m.absorbed:
+                continue        # new helper, analysed inline in its callers
             n += 1
             # is the call's value used (test / return / assigned)?
             parent_expr = None
